@@ -53,7 +53,8 @@ CHECKS["C12"] = dict(
          "synchronisation object; each listed operation is one critical section. Because the argument is per "
          "thread and per path, it covers every schedule and any number of threads, which no stress run can. "
          "What get_lock() locks has static storage duration and is not thread_local. "
-         "Whether a member may be read without the lock because it is atomic is decided by its declared type.",
+         "Whether a member may be read without the lock because it is atomic is decided by its declared type. "
+         "The global mutex is created by the initialiser of a function-local static, never by a test-and-assign.",
     design_ref="DESIGN.md section 4, C12",
     note="Exemptions (named, with reasons, in rules/C12.py): sequence-object destruction, mock move, "
          "set_sequence's copy of the never-registered old handler, TIMES before IN_SEQUENCE. Not decided: "
@@ -70,7 +71,8 @@ CHECKS["C15"] = dict(
          "The location argument of each report site flows from the reporting expectation's own loc field over all "
          "callers; the no-match report prints all actual parameters, tests and lists every saturated expectation that "
          "matches, lists live ones only otherwise, with no early exit from either loop. " 
-         "The values printed by a forbidden-call report are derived from the reporting function's call-parameter tuple (not from the expectation's stored values), and the parameter printer visits every index of that tuple unconditionally under its own number.",
+         "The values printed by a forbidden-call report are derived from the reporting function's call-parameter tuple (not from the expectation's stored values), and the parameter printer visits every index of that tuple unconditionally under its own number. "
+         "The saturated list follows a moved mock (so the saturated listing of the no-match report is right after a move).",
     design_ref="DESIGN.md section 4, C15", note="Not decided: wording of the messages.")
 CHECKS["C05"] = dict(
     technique="decision tables of the cost/order/retire_until loop steps by interpreting the extracted CFG over all "
@@ -108,7 +110,8 @@ CHECKS["C08"] = dict(
          "side-effect loop; in every function that evaluates WITH clauses no clause is evaluated after one has "
          "failed; reference returns keep object identity by type. "
          "The whole step protocol of the accept path is a premise of this property and is decided by this check too: forbidden test first and unconditional, sequence check before the count, exactly one count, saturation test after the count, the expectation has left its list and its sequences before any user code runs. "
-         "In every library function the dispatch function's exception handlers call, each deliberate raise (throw;, the standard rethrow helpers) lies lexically inside a try block with a catch-all, so recording an exception cannot replace it on its way to the caller.",
+         "In every library function the dispatch function's exception handlers call, each deliberate raise (throw;, the standard rethrow helpers) lies lexically inside a try block with a catch-all, so recording an exception cannot replace it on its way to the caller. "
+         "WITH clauses are evaluated only inside the walk over the clause list and the walk skips no element (declaration order).",
     design_ref="DESIGN.md section 4, C08", note="Not decided: what the user's expressions compute.")
 
 CHECKS["C01"] = dict(
@@ -149,7 +152,8 @@ CHECKS["C03"] = dict(
          "saturated list; RT_TIMES throws std::logic_error exactly when high<low, before any effect. "
          "The whole step protocol of the accept path is a premise of this property and is decided by this check too: forbidden test first and unconditional, sequence check before the count, exactly one count, saturation test after the count, the expectation has left its list and its sequences before any user code runs. "
          "The predicate tables (is_satisfied, is_saturated, is_forbidden) hold for the base implementation and for every override. "
-         "IN_SEQUENCE keeps the limits: the creation site of the replacement handler and the constructor it calls (base constructors and helpers followed) are interpreted with an old handler of (min 5, max 7) and must store exactly these.",
+         "IN_SEQUENCE keeps the limits: the creation site of the replacement handler and the constructor it calls (base constructors and helpers followed) are interpreted with an old handler of (min 5, max 7) and must store exactly these. "
+         "The public queries read the predicate while a lock object is alive (a discarded get_lock() is reported).",
     design_ref="DESIGN.md section 4, C03", note="count<=max is an invariant from C03.d, used as don't-care rows.")
 CHECKS["C06"] = dict(
     technique="decision table of the is_completed step (TABLE, loop-idiom independent), interpretation of the sequence "
@@ -187,7 +191,8 @@ CHECKS["C10"] = dict(
          "operator== unconverted whenever it is comparable as it is (type witness over integral / floating / "
          "string / pointer pairs). This is the full predicate-level property; the user type's own operators and std::regex_search are opaque. "
          "Composing a matcher from named (lvalue) operands never moves from them. "
-         "The dereferencing matcher's table is also decided for a nullable user pointer type that is not is_null_comparable (helpers the guard is factored into are interpreted from their bodies).",
+         "The dereferencing matcher's table is also decided for a nullable user pointer type that is not is_null_comparable (helpers the guard is factored into are interpreted from their bodies). "
+         "The code under matcher/ keeps no mutable static state: a verdict does not depend on which matchers were created or asked before.",
     design_ref="DESIGN.md section 4, C10", note="Nesting follows from compositionality: every combinator's table is "
     "over the results of its operands' matches().")
 CHECKS["C13"] = dict(
@@ -213,7 +218,8 @@ CHECKS["C09"] = dict(
          "witness holds for all argument values. The tuple is built in place from the forwarded parameters in order; "
          "plain clause macros capture [=], LR_ ones [&]. Enumerated space is exhaustive. "
          "The C++11 macro API (corpus/core11.cpp parsed at -std=c++11) is subject to the same capture rule. "
-         "Copy-trap witness: a type whose copy operations do not compile when used is passed by rvalue and by value through the parameter tuple, _N, WITH, SIDE_EFFECT and RETURN(std::move(_N)); a control that must copy is rejected.",
+         "Copy-trap witness: a type whose copy operations do not compile when used is passed by rvalue and by value through the parameter tuple, _N, WITH, SIDE_EFFECT and RETURN(std::move(_N)); a control that must copy is rejected. "
+         "The positional-alias witness is also compiled for the C++11 macro API at -std=c++11.",
     design_ref="DESIGN.md section 4, C09", note="Compiler front ends are the oracle.")
 CHECKS["C17"] = dict(
     technique="who-may-call on the trace sink, structural checks of the dispatch function's agent (construction "
@@ -239,7 +245,8 @@ CHECKS["C18"] = dict(
          "bytes is dominated by a live sentry; opaque values are dumped as sizeof(T) bytes from their address: the byte walk covers exactly [begin, begin+size) once each in address order (span + for_each / range-for, or a counted index loop), every byte is read as unsigned char and reaches a numeric inserter only through types that represent 0..255; "
          "dispatch traits hold over the listed type family. " 
          "What a collection printer hands to print() for each element has the collection's element type (no array-to-pointer decay, no conversion), so nested collections recurse into the collection printer. "
-         "Hex-dump line breaks: both newline guards are interpreted for sizes 1..40 - after the header exactly when the object is larger than 8 bytes, after byte k exactly when k mod 16 == 15.",
+         "Hex-dump line breaks: both newline guards are interpreted for sizes 1..40 - after the header exactly when the object is larger than 8 bytes, after byte k exactly when k mod 16 == 15. "
+         "No print / printer / streamer instantiation has a top-level-const value type (printer selection is on the unqualified type, also for reference_wrapper<const X>).",
     design_ref="DESIGN.md section 4, C18", note="Not decided: hex-dump digits and line breaks for every size.")
 
 CHECKS["C14"] = dict(
